@@ -17,15 +17,17 @@
 (* half (a spawned task) is "left to run": what it fetched may still land      *)
 (* later, or be refused by the storage (`late`).  A sync given up is not       *)
 (* remembered.                                                                 *)
-(* StampLast / RememberPolled / RememberAll / RememberTimedOut are NOT the     *)
-(* code: each is a plausible variation that TLC shows to be unsound.           *)
+(* StampLast / RememberPolled / RememberAll / RememberTimedOut /               *)
+(* RememberPartial are NOT the code: each is a plausible variation that TLC    *)
+(* shows to be unsound.                                                        *)
 EXTENDS Naturals, FiniteSets, TLC
 
 CONSTANTS Keyspaces, MaxMut, MaxRounds,
           StampLast,        \* the handler serializes first and reads the stamp afterwards
           RememberPolled,   \* the tracker remembers the stamp of the poll instead of the one that came with the state
           RememberAll,      \* one successful sync marks every polled keyspace as synchronised
-          RememberTimedOut  \* a sync that was given up (no progress within the timeout) is remembered like a finished one
+          RememberTimedOut, \* a sync that was given up (no progress within the timeout) is remembered like a finished one
+          RememberPartial   \* a sync that deliberately repairs only a part of the difference (a cap per round) is remembered all the same
 
 VARIABLES chg,     \* peer: keyspace -> change stamp (0 = the keyspace does not exist yet)
           ver,     \* peer: keyspace -> content version
@@ -91,7 +93,9 @@ StartSync ==
 Sync(k, out) ==
   /\ phase = "syncing" /\ got[k] # None
   /\ got' = [got EXCEPT ![k] = None]
-  /\ seen' = IF out = "ok" /\ got[k].st > seen[k] THEN [seen EXCEPT ![k] = got[k].st] ELSE seen
+  /\ seen' = IF out = "ok" /\ got[k].st > seen[k]
+             THEN [seen EXCEPT ![k] = IF RememberPartial /\ got[k].st > seen[k] + 1 THEN got[k].st - 1 ELSE got[k].st]
+             ELSE seen
   /\ late' = IF out = "timeout" /\ got[k].st > late[k] THEN [late EXCEPT ![k] = got[k].st] ELSE late
   /\ trk' = IF out = "fail" \/ (out = "timeout" /\ ~RememberTimedOut) THEN trk
             ELSE IF RememberAll THEN [j \in Keyspaces |-> IF polled[j] # 0 THEN polled[j] ELSE trk[j]]
